@@ -21,8 +21,8 @@ RULE = ("a history = (import order, id-counter bumps per prefix SYM/FUN/QTY/VEC/
 ASSUMPTIONS = ["PYTHONHASHSEED is fixed (hash-seed dependence is not part of the property)",
                "numeric fingerprints use fixed smooth stand-ins for undefined functions",
                "a dependence that needs one specific counter value outside the swept patterns is missed"]
-MIN_REACH = {"quick": {"boundary_reimports": 600, "histories": 14, "modules_compared": 8000, "equations_compared": 8000, "probes_compared": 1500, "isolated": 30},
-             "thorough": {"histories": 60, "modules_compared": 40000, "isolated": 600}}
+MIN_REACH = {"quick": {"boundary_reimports": 2400, "histories": 14, "modules_compared": 10000, "equations_compared": 10000, "probes_compared": 4000, "isolated": 30},
+             "thorough": {"histories": 60, "modules_compared": 40000, "isolated": 600, "boundary_reimports": 6000}}
 SHARD_TIMEOUT = {"quick": 900, "thorough": 3000}
 PREFIXES = ["SYM", "FUN", "QTY", "VEC", "SYS", ""]
 
@@ -64,7 +64,7 @@ def plan(tier, seed):
         part = bmods[i::kb]
         if part:
             specs.append({"_label": f"boundary{i}", "kind": "boundary", "modules": part, "seed": seed,
-                          "offsets": [0] if tier == "quick" else [0, 1, 2, 3]})
+                          "offsets": [0, 1, 2, 3] if tier == "quick" else list(range(10))})
     # isolated modules: batches of fresh processes are expensive; one process per module, grouped per shard sequentially
     k = 16
     for i in range(k):
@@ -166,10 +166,108 @@ def probe_args(func, g):
     for p in params:
         if p not in g["inputs"]:
             return None
-        hd = hashlib.sha1(f"{func.__name__}.{p}".encode()).digest()
-        mag = 1 + (hd[0] % 40) / 10
-        kwargs[p] = c04.valid_arg(g["inputs"][p], c04.kind_of_param(inner, p), mag)
+        kwargs[p] = c04.valid_arg(g["inputs"][p], c04.kind_of_param(inner, p), param_mag(func, p))
     return kwargs
+
+
+def param_mag(func, p):
+    hd = hashlib.sha1(f"{func.__name__}.{p}".encode()).digest()
+    return 1 + (hd[0] % 40) / 10
+
+
+class Unbuildable(Exception):
+    pass
+
+
+def build_from_annotation(ann, dim, mag):
+    """an argument of the annotated shape whose Quantity leaves all have dimension `dim` and pairwise different magnitudes"""
+    import typing
+    import collections.abc
+    from symplyphysics import Quantity, QuantityVector
+    from symplyphysics.core.dimensions import dimension_to_si_unit
+    counter = [0]
+
+    def q():
+        counter[0] += 1
+        m = mag + 0.75 * (counter[0] - 1)
+        return Quantity(m) if dim is None else Quantity(m * dimension_to_si_unit(dim))
+
+    def b(a):
+        if a is Quantity:
+            return q()
+        if a is QuantityVector:
+            return QuantityVector([q(), q(), q()])
+        if a is int:
+            return 3
+        if a is float:
+            return float(mag)
+        origin, args = typing.get_origin(a), typing.get_args(a)
+        if origin is tuple and args and Ellipsis not in args:
+            return tuple(b(x) for x in args)
+        if origin in (tuple, list, collections.abc.Sequence, collections.abc.Iterable) and args:
+            return [b(args[0]), b(args[0])]
+        raise Unbuildable(str(a))
+    return b(ann)
+
+
+def probe_search(func, g, mod):
+    """functions with parameters their decorator does not declare (or with no input decorator at all): arguments are built from
+    the annotations; the dimension of the undeclared Quantity leaves is the one of the like-named module symbol, else the first
+    of the module's own symbol dimensions (in a history-independent order) with which the call returns.
+    -> (result, None) | (None, reason)"""
+    import inspect
+    import itertools
+    from sympy.physics.units import Dimension
+    from vf import units_ref
+    from vf.checks import c04
+    inner = g["inner"]
+    sig = inspect.signature(inner)
+    fixed, open_params = {}, []
+    for p, par in sig.parameters.items():
+        if p in g["inputs"]:
+            fixed[p] = c04.valid_arg(g["inputs"][p], c04.kind_of_param(inner, p), param_mag(func, p))
+        elif par.default is not inspect.Parameter.empty:
+            continue
+        else:
+            open_params.append(p)
+    cands = {}
+    for attr in sorted(vars(mod)):
+        d = getattr(vars(mod)[attr], "dimension", None)
+        if d is None or attr.startswith("_"):
+            continue
+        if isinstance(vars(mod)[attr], type) or not isinstance(d, Dimension):
+            continue
+        try:
+            v = units_ref.observed_vector(d)
+        except Exception:  # pylint: disable=broad-except
+            continue
+        if isinstance(v, tuple) and v and not isinstance(v[0], str):
+            cands.setdefault(units_ref.vfmt(v), d)
+    ordered_c = [cands[k] for k in sorted(cands)] + [None]
+    choices = []
+    for p in open_params:
+        own = getattr(vars(mod).get(p.rstrip("_")), "dimension", None)
+        own_ok = isinstance(own, Dimension) and type(own).__name__ != "AnyDimension"
+        choices.append([own] if own_ok else ordered_c)
+    tried = 0
+    for combo in itertools.product(*choices):
+        tried += 1
+        if tried > 64:
+            break
+        try:
+            kwargs = dict(fixed)
+            for p, d in zip(open_params, combo):
+                kwargs[p] = build_from_annotation(sig.parameters[p].annotation, d, param_mag(func, p))
+        except Unbuildable as x:
+            return None, "unbuildable " + str(x)[:40]
+        try:
+            with harness.Watchdog(60):
+                return func(**kwargs), None
+        except TimeoutError:
+            raise
+        except Exception:  # pylint: disable=broad-except
+            continue
+    return None, "no accepted dimensions"
 
 
 def result_repr(res):
@@ -214,14 +312,19 @@ def observe_module(name, rec, probe, out):
     if probe:
         for fname, func in catalogue.functions(mod):
             g = catalogue.guard_specs(func)
-            if "input" not in g["layers"]:
+            if "input" not in g["layers"] and not fname.startswith("calculate_"):
                 continue
             try:
-                kwargs = probe_args(func, g)
+                kwargs = probe_args(func, g) if "input" in g["layers"] else None
                 if kwargs is None:
-                    continue
-                with harness.Watchdog(60):
-                    res = func(**kwargs)
+                    res, why = probe_search(func, g, mod)
+                    if why is not None:
+                        rec.add("probe_not_built")
+                        continue
+                    rec.add("probes_with_undeclared_parameters")
+                else:
+                    with harness.Watchdog(60):
+                        res = func(**kwargs)
                 rec_m["probe"][fname] = result_repr(res)
             except TimeoutError:
                 rec_m["probe"][fname] = ["watchdog"]
@@ -321,7 +424,7 @@ def boundary_chunk(modules, j):
     res = {}
     for i, name in enumerate(modules):
         first = {}
-        observe_module(name, H.Rec(), False, first)
+        observe_module(name, H.Rec(), True, first)
         base = first.get(name, {"import": "?"})
         entry = {"first": base, "re": []}
         if base.get("import") == "ok":
@@ -331,7 +434,7 @@ def boundary_chunk(modules, j):
                     id_generator._ids[p] = target
                 mod = sys.modules.pop(name, None)
                 out = {}
-                observe_module(name, H.Rec(), False, out)
+                observe_module(name, H.Rec(), True, out)
                 o = out.get(name, {"import": "?"})
                 o["counter"] = target
                 entry["re"].append(o)
